@@ -126,6 +126,21 @@ theorem exec_modes :
 theorem executors_importable :
     ∀ r ∈ TebdLayers.exec_table, resolvable r.2.1 = true := by decide
 
+/-- **a single-site gate applies its matrix, not the transpose**: with the leg wiring of
+    `PtTebdBackend.apply_site_gate` read from the source (`ControlCompose.siteGate_*`), a site
+    gate (ChainControl superoperator) with matrix `C` on site `j` maps the state to
+    `Σ_a C (c_j) a · ψ(c[j ↦ a])`, i.e. the site's `vec ρ` to `C · vec ρ` -/
+theorem site_gate_applies_matrix {K : Type} [CommRing K] (ch : Chain K) (j k : ℕ) (hj : j < ch.n)
+    (ctl : ℕ → ℕ → Option (ℕ → ℕ → K)) (C : ℕ → ℕ → K) (hC : ctl j k = some C) :
+    siteGateActs = true ∧ siteGateTable C = C ∧
+    Op.site (physSlot j) (ch.L j) (ch.L j) C ∈ ch.ctrlOps ctl k ∧
+    ∀ ψ c, (Op.site (physSlot j) (ch.L j) (ch.L j) C).run ψ c
+      = ∑ a ∈ range (ch.L j), C (c (physSlot j)) a * ψ (update c (physSlot j) a) := by
+  refine ⟨by decide, siteGateTable_eq C, ?_, fun _ _ => rfl⟩
+  unfold Chain.ctrlOps
+  simp only [List.mem_filterMap, List.mem_range, Option.map_eq_some_iff]
+  exact ⟨j, hj, C, hC, by rw [siteGateTable_eq]⟩
+
 /-! ## 3. uncoupled chains -/
 
 section Uncoupled
